@@ -14,7 +14,7 @@ import sys
 import tempfile
 
 from harness.common import Batch, rng, write_summary, exc_name, time_limit, HangTimeout
-from harness.search_common import (ProbeRep, FitnessProbe, RecordingBudget, Observer, Ids, Stalled, make_rep,
+from harness.search_common import (INF_TOKEN, iv, ProbeRep, FitnessProbe, RecordingBudget, Observer, Ids, Stalled, make_rep,
                                    search_grammar, prog_value, icomps)
 
 from geneticengine.algorithms.random_search import RandomSearch
@@ -98,10 +98,10 @@ def direct_session(R, hist, mini, multi, shape, repkind):
         tracker.evaluate(batch)
         if multi:
             fr = tracker.get_best_individuals()
-            bagg = int(fr[0].get_fitness(problem).maximizing_aggregate) if fr else -(10 ** 6)
+            bagg = iv(fr[0].get_fitness(problem).maximizing_aggregate) if fr else -(10 ** 10)
         else:
             bi = tracker.get_best_individual()
-            bagg = int(bi.get_fitness(problem).maximizing_aggregate) if bi is not None else -(10 ** 6)
+            bagg = iv(bi.get_fitness(problem).maximizing_aggregate) if bi is not None else -(10 ** 10)
         events.append({"e": "endpresent", "ids": [ids.of(x) for x in batch], "bestagg": bagg})
         presented += [x for x in batch if x not in presented]
     return events, base_cfg(mini, multi, "direct")
@@ -277,7 +277,7 @@ def evaluator_sessions(R, batch, tier, stats):
                 if x.has_fitness(prob):
                     fx = x.get_fitness(prob)
                     after.append({"id": ids.of(x), "has": True, "comps": icomps(fx.fitness_components),
-                                  "agg": int(fx.maximizing_aggregate)})
+                                  "agg": iv(fx.maximizing_aggregate)})
                 else:
                     after.append({"id": ids.of(x), "has": False, "comps": [], "agg": 0})
             evs.append({"e": "evalcall", "evaluator": evname, "inds": had, "after": after, "exc": exc,
@@ -353,6 +353,19 @@ def main():
         ev, cfg = direct_session(R, h, mini, True, shape, "tree")
         batch.trace(f"direct2/{hi}/{shape}", ev, cfg)
         stats["events"] += len(ev)
+
+    # histories that begin with infinitely bad values (the usual fitness of an invalid program), or contain infinities
+    INF = INF_TOKEN
+    for hi, (h, mi) in enumerate([([INF, INF, 5, 7, 5, 3], True), ([-INF, -INF, 5, 7, 9], False), ([INF, INF, INF], True),
+                                  ([5, INF, 3, -INF, 3], True), ([-INF, 4, INF, 2], False), ([INF, 5], False), ([-INF, 5], True)]):
+        for shape in shapes:
+            ev, cfg = direct_session(R, [[x] for x in h], [mi], False, shape, "tree")
+            batch.trace(f"directinf/{hi}/{shape}", ev, cfg)
+            stats["events"] += len(ev)
+        for alg in ("RS", "HC", "GP"):
+            ev, cfg = algorithm_run(R, alg, [[x] for x in h], "scripted", [mi], False, "eval", len(h) + 2, "tree", pop=3, k=2)
+            batch.trace(f"run/inf/{hi}/{alg}", ev, cfg)
+            stats["events"] += len(ev)
 
     # algorithm runs
     nruns = 120 if quick else 1500
